@@ -2,11 +2,14 @@ package eng
 
 import (
 	"bufio"
+	"fmt"
 	"os"
 	"path/filepath"
 	"runtime"
 	"sort"
 	"strings"
+	"sync/atomic"
+	"syscall"
 	"time"
 )
 
@@ -176,4 +179,71 @@ func ProcRefs(dir string) (fds []string, maps []string) {
 	}
 	sort.Strings(fds)
 	return
+}
+
+// ReclaimLeakedMaps unmaps memory mappings of this process that refer to
+// files in directories under root that no longer exist.  Known finding
+// KF-01 (child footers are never released) leaves such mappings behind in
+// every case that uses child collections; a worker that runs thousands of
+// cases would otherwise run into vm.max_map_count and see mmap fail with
+// ENOMEM - in moss, as an "unprovoked" error.  Only mappings whose whole
+// case directory has already been removed are touched (a finished case),
+// and only while no moss goroutine is runnable.  Returns the number of
+// mappings of this process before, and how many were unmapped.
+func ReclaimLeakedMaps(root string) (total, reclaimed int) {
+	if atomic.LoadInt32(&Tainted) != 0 {
+		return 0, 0
+	}
+	root = filepath.Clean(root)
+	f, err := os.Open("/proc/self/maps")
+	if err != nil {
+		return 0, 0
+	}
+	type rng struct{ lo, hi uintptr }
+	var victims []rng
+	exists := map[string]bool{}
+	sc := bufio.NewScanner(f)
+	sc.Buffer(make([]byte, 1<<16), 1<<20)
+	for sc.Scan() {
+		total++
+		ln := sc.Text()
+		i := strings.Index(ln, root+"/")
+		if i < 0 {
+			continue
+		}
+		path := strings.TrimSuffix(ln[i:], " (deleted)")
+		dir := filepath.Dir(path)
+		ex, seen := exists[dir]
+		if !seen {
+			_, err := os.Stat(dir)
+			ex = err == nil
+			exists[dir] = ex
+		}
+		if ex {
+			continue
+		}
+		var lo, hi uintptr
+		if n, _ := fmt.Sscanf(ln, "%x-%x", &lo, &hi); n != 2 || hi <= lo {
+			continue
+		}
+		victims = append(victims, rng{lo, hi})
+	}
+	f.Close()
+	if len(victims) == 0 {
+		return total, 0
+	}
+	for _, g := range MossGoroutines() {
+		if strings.Contains(g.Text, "idleMergerWaker") {
+			continue
+		}
+		if !blockedState(g.State) {
+			return total, 0 // something of moss still runs: leave everything alone
+		}
+	}
+	for _, v := range victims {
+		if _, _, e := syscall.Syscall(syscall.SYS_MUNMAP, v.lo, v.hi-v.lo, 0); e == 0 {
+			reclaimed++
+		}
+	}
+	return total, reclaimed
 }
